@@ -17,10 +17,16 @@ PROVED, VIOLATED, UNDECIDED, ERROR, KNOWN = 'proved', 'violated', 'undecided', '
 
 
 def load_known_findings():
+    out = []
     p = os.path.join(VERIF, 'known_findings.json')
-    if not os.path.exists(p):
-        return []
-    return json.load(open(p)).get('findings', [])
+    if os.path.exists(p):
+        out += json.load(open(p)).get('findings', [])
+    d = os.path.join(VERIF, 'known_findings.d')
+    if os.path.isdir(d):
+        for n in sorted(os.listdir(d)):
+            if n.endswith('.json'):
+                out += json.load(open(os.path.join(d, n))).get('findings', [])
+    return out
 
 
 class Check:
